@@ -170,10 +170,39 @@ def _compile_seq(nfa, seq, flags, cur, wanted, alpha):
             if ops == 'POSSESSIVE_REPEAT':
                 raise AnalysisError('unsupported regex construct: possessive repeat')
             lo, hi, sub = av
-            if wanted and hi > 1 and _has_wanted_group(sub, wanted):
-                raise AnalysisError('a group that is read by the code sits inside a repeat')
             if lo > 64 or (hi != MAXREPEAT and hi > 64):
                 raise AnalysisError('repeat bound too large for the analyser')
+            if wanted and hi > 1 and _has_wanted_group(sub, wanted):
+                # a capturing group that is the whole body of a repeat keeps the text of its LAST iteration:
+                # (G){lo,hi}  ==  [ (?:G){max(lo-1,0),hi-1} (G) ]  (the bracket optional when lo == 0)
+                items = list(sub)
+                if not (len(items) == 1 and str(items[0][0]) == 'SUBPATTERN' and items[0][1][0] in wanted
+                        and not _has_wanted_group(items[0][1][3], wanted)):
+                    raise AnalysisError('a group that is read by the code sits inside a repeat')
+                end = nfa.new()
+                if lo == 0:
+                    nfa.eps[cur].append(end)
+                lo2 = max(lo - 1, 0)
+                for _ in range(lo2):
+                    cur = _compile_seq(nfa, sub, flags, cur, frozenset(), alpha)
+                if hi == MAXREPEAT:
+                    loop = nfa.new()
+                    nfa.eps[cur].append(loop)
+                    e = _compile_seq(nfa, sub, flags, loop, frozenset(), alpha)
+                    nfa.eps[e].append(loop)
+                    cur = loop
+                    last = _compile_seq(nfa, sub, flags, cur, wanted, alpha)
+                    nfa.eps[last].append(end)
+                else:
+                    starts = [cur]
+                    for _ in range(hi - 1 - lo2):
+                        cur = _compile_seq(nfa, sub, flags, cur, frozenset(), alpha)
+                        starts.append(cur)
+                    for s0 in starts:
+                        last = _compile_seq(nfa, sub, flags, s0, wanted, alpha)
+                        nfa.eps[last].append(end)
+                cur = end
+                continue
             for _ in range(lo):
                 cur = _compile_seq(nfa, sub, flags, cur, wanted, alpha)
             if hi == MAXREPEAT:
